@@ -29,6 +29,9 @@ type opts struct {
 
 var families = map[string]func(o opts) error{}
 
+// childFailObs: for families in which the death of the child process is itself an observation
+var childFailObs = map[string]func(c interface{}) (string, string){}
+
 func main() {
 	log.SetOutput(io.Discard) // go-plugin logs through the std logger in places
 	if len(os.Args) < 2 {
@@ -84,6 +87,11 @@ func fanOut(o opts, family string, prop int, prefix string, n int, get func(i in
 				msg := string(out)
 				if len(msg) > 300 {
 					msg = msg[len(msg)-300:]
+				}
+				if f, ok := childFailObs[family]; ok {
+					in, obs := f(c)
+					sink.PutRaw(prop, fmt.Sprintf("%s%d", prefix, i), in, obs, map[string]interface{}{"case": c, "child_output": msg})
+					return
 				}
 				sink.PutRaw(prop, fmt.Sprintf("%s%d", prefix, i), "(child-failed)", "(child-failed)", map[string]interface{}{"case": c, "child_output": msg})
 				return
